@@ -38,16 +38,16 @@ func (c13) Meta() fw.Meta {
 	return fw.Meta{
 		ID: "C13",
 		Rule: "case = one trial: a 6-page single-archive file whose every slot carries a generation stamp; the file's first session is its creation (Create with default options, stamp generation 0, Sync, Close) during which the other sessions already try to open it; 2-8 writer sessions (Open, read generation from a slot in page 0 and one in the last page, sleep, rewrite ALL slots with generation+1, sleep, Sync, sleep, Close) and 2-8 reader sessions (Open, fetch first half, sleep, fetch second half, Close) " +
-			"run as goroutines AND as separate processes (mix by PRNG), injected sleeps 0-5 ms between the client-boundary steps. Events (call/acquired/observed/releasing/return) carry CLOCK_MONOTONIC time shared by all processes. " +
+			"run as goroutines AND as separate processes (mix by PRNG), injected sleeps 0-5 ms between the client-boundary steps (rarely one writer holds the file for 4 s; some in-process readers close their handle twice). Events (call/acquired/observed/releasing/return) carry CLOCK_MONOTONIC time shared by all processes. " +
 			"oracles: (1) no two [acquired,releasing] intervals overlap; (2) final generation == number of writers and the generations read by writers are exactly 0..W-1; (3) every session sees ONE generation in all slots; " +
 			"(4) the history (inc returns old value / read returns value, Call=before Open, Return=after Close) is linearizable w.r.t. an integer register (porcupine, 60 s timeout => inconclusive); " +
-			"(5) every way an Open/Create can fail after the descriptor exists (0-byte, truncated header, bad method/xff/archive list, header larger than file, body shorter than declared, Create with a read-only flag on an existing file), with GC disabled: a fresh descriptor gets flock(LOCK_EX|LOCK_NB) at once and /proc/self/fd shows no descriptor for the path; race detector on. " +
+			"(5) every way an Open/Create can fail after the descriptor exists (0-byte, truncated header, bad method/xff/archive list, header larger than file, body shorter than declared, Create with a read-only flag on an existing file), with GC disabled: a fresh descriptor gets flock(LOCK_EX|LOCK_NB) at once and /proc/self/fd shows no descriptor for the path; (6) closing a handle twice leaves the lock of another, still open handle (whose descriptor typically reuses the number) in place; race detector on. " +
 			"non-trivial = trial in which at least one session waited while another held the file; distinct by the observed acquisition order (which session, writer/reader, goroutine/process, obtained the file in which order).",
 		Assumptions: []string{
 			"advisory locks bind cooperating default-option handles only (WithoutFlock handles are outside the property)",
 			"recorded [acquired,releasing] intervals are subsets of the real hold intervals, so an observed overlap is a sound conviction; absence of overlap is evidence only for the schedules produced",
 		},
-		Obligations: []string{"trials", "sessions", "sessions_blocked_inprocess", "sessions_blocked_crossprocess", "porcupine_ok", "failed_open_probes", "writer_generations_checked", "reader_uniformity_checked", "creator_sessions"},
+		Obligations: []string{"trials", "sessions", "sessions_blocked_inprocess", "sessions_blocked_crossprocess", "porcupine_ok", "failed_open_probes", "writer_generations_checked", "reader_uniformity_checked", "creator_sessions", "double_close_sessions", "long_hold_trials", "sparse_schedule_trials", "double_close_probes"},
 		Race:        true,
 		Workers:     8,
 	}
@@ -164,8 +164,17 @@ func c13Session(path string, id int, kind, proc string, d [3]time.Duration) c13e
 	ev.Releasing = monoNow()
 	db.Close()
 	ev.Return = monoNow()
+	if d[2] == c13DoubleClose {
+		// a deferred Close after an explicit one is common practice: closing a handle twice must not affect
+		// any OTHER handle (whose descriptor may have reused the number)
+		time.Sleep(time.Duration(300+ev.ID*1371%6000) * time.Microsecond)
+		db.Close()
+	}
 	return ev
 }
+
+// c13DoubleClose is a marker value in a reader session's third (unused) delay slot: close the handle twice.
+const c13DoubleClose = 7 * time.Nanosecond
 
 func c13Child(args []string) int {
 	// args: path id kind d0 d1 d2 logfile
@@ -193,9 +202,56 @@ type regIn struct {
 	Inc bool
 }
 
+// c13DoubleCloseProbe: closing a handle a second time (a deferred Close after an explicit one) must not
+// affect ANOTHER handle - in particular not one whose descriptor reuses the number of the closed one.
+func c13DoubleCloseProbe(c *fw.Ctx) {
+	dir := c.TmpDir()
+	l := model.Layout{Archs: []model.Arch{{Step: 1, Points: 50}}, Method: 2, Xff: 0}
+	p1, p2 := filepath.Join(dir, "dc-one.wsp"), filepath.Join(dir, "dc-two.wsp")
+	for _, p := range []string{p1, p2} {
+		db, err := createFile(p, l)
+		if err != nil {
+			panic(err)
+		}
+		db.Sync()
+		db.Close()
+	}
+	for round := 0; round < 4; round++ {
+		a, err := wt.Open(p1)
+		if err != nil {
+			panic(err)
+		}
+		a.Close()
+		b, err := wt.Open(p2) // typically receives the descriptor number a just gave back
+		if err != nil {
+			panic(err)
+		}
+		a.Close() // second Close of a
+		fd, err := syscall.Open(p2, syscall.O_RDWR, 0)
+		if err == nil {
+			ferr := syscall.Flock(fd, syscall.LOCK_EX|syscall.LOCK_NB)
+			if ferr == nil {
+				syscall.Flock(fd, syscall.LOCK_UN)
+				syscall.Close(fd)
+				b.Close()
+				c.Violationf("second-close-released-another-handles-lock", fw.J{"round": round},
+					"after closing handle A a second time, the file held by the still-open handle B is no longer locked: a later Open would not wait")
+				return
+			}
+			syscall.Close(fd)
+		}
+		b.Close()
+		c.Count("double_close_probes", 1)
+	}
+}
+
 func (c13) Run(c *fw.Ctx) {
 	r := c.Rng
 	c13FailedOpen(c)
+	if c.Violated() {
+		return
+	}
+	c13DoubleCloseProbe(c)
 	if c.Violated() {
 		return
 	}
@@ -243,6 +299,9 @@ func (c13) Run(c *fw.Ctx) {
 	}
 	delays := []time.Duration{0, 50 * time.Microsecond, 200 * time.Microsecond, time.Millisecond, 2 * time.Millisecond, 5 * time.Millisecond}
 	var plans []plan
+	doubleCloses := 0
+	// rarely one writer holds the file for several seconds: the waiting sessions must keep waiting (not give up)
+	longHold := (c.Tier == "thorough" && c.Index%24 == 7) || (c.Tier != "thorough" && c.Index == 7)
 	for i := 0; i < W+R; i++ {
 		p := plan{id: i, kind: "writer", proc: "goroutine"}
 		if i >= W {
@@ -262,9 +321,33 @@ func (c13) Run(c *fw.Ctx) {
 			p.d[j] = delays[r.Intn(len(delays))]
 		}
 		p.wait = time.Duration(r.Intn(3000)) * time.Microsecond
+		if p.kind == "reader" && p.proc == "goroutine" && r.Intn(2) == 0 {
+			p.d[2] = c13DoubleClose
+			doubleCloses++
+		}
 		plans = append(plans, p)
 	}
 	r.Shuffle(len(plans), func(i, j int) { plans[i], plans[j] = plans[j], plans[i] })
+	if c.Index%4 == 3 && !longHold {
+		// sparse schedule: sessions start one after the other with little contention, so a session often opens
+		// (and obtains a fresh descriptor number) right after another one closed
+		for i := range plans {
+			plans[i].wait = time.Duration(i)*time.Duration(1500+r.Intn(2500))*time.Microsecond + time.Duration(r.Intn(500))*time.Microsecond
+			for j := 0; j < 2; j++ {
+				plans[i].d[j] = []time.Duration{0, 50 * time.Microsecond, 200 * time.Microsecond, time.Millisecond}[r.Intn(4)]
+			}
+			if plans[i].d[2] != c13DoubleClose {
+				plans[i].d[2] = 0
+			}
+		}
+		c.Count("sparse_schedule_trials", 1)
+	}
+	if longHold {
+		plans[0].d[1] = 4200 * time.Millisecond // writer 0 sleeps 4.2 s between stamping and Sync
+		plans[0].wait = 0
+		c.Count("long_hold_trials", 1)
+	}
+	c.Count("double_close_sessions", int64(doubleCloses))
 	logFile := filepath.Join(dir, "events.jsonl")
 	exe, _ := os.Executable()
 	var mu sync.Mutex
